@@ -293,6 +293,18 @@ mod enigma_line {
 }
 
 fn write_class(class_key: &ObjClassNameSlice, class: &ClassNowodeMapping<2>, w: &mut impl Write, indent: usize) -> Result<()> {
+	// the text is put together in memory first: a name that is not valid UTF-8 (an unpaired surrogate) cannot be
+	// written in the Enigma format, formatting it fails, and `write!` on an `io::Write` panics on that
+	let mut text = String::new();
+	write_class_text(class_key, class, &mut text, indent)
+		.with_context(|| anyhow!("cannot write class {class_key:?} in the enigma format: are all its names valid UTF-8?"))?;
+	w.write_all(text.as_bytes())?;
+	Ok(())
+}
+
+fn write_class_text(class_key: &ObjClassNameSlice, class: &ClassNowodeMapping<2>, w: &mut String, indent: usize) -> Result<()> {
+	use std::fmt::Write as _;
+
 	// a class written at the top level of a file has no parent line to take its outer class name from,
 	// even if it is an inner class (one whose outer class isn't in the mappings), so it keeps its full names
 	let is_nested = indent != 0;
